@@ -111,6 +111,7 @@ def duration_literal_rule(F, rep):
         name = cands[0]
         h = F.hir[name]
         n += 1
+        ev_holder = [None]
 
         def hook(callee, args, st):
             c = callee or ""
@@ -126,6 +127,10 @@ def duration_literal_rule(F, rep):
                 return [(("parsed", g, True), ("v", "Ok", [("sym", g)])), (("parsed", g, False), ("v", "Err", [("sym", "parse-error")]))]
             if last in ("trunc", "round", "floor") and args:
                 return args[0]           # the fraction scaled to nanoseconds; rounding of the product is not modelled
+            if c.startswith("dmntk_feel::temporal") and len(args) == 1 and args[0][0] == "sym" and args[0][1].startswith("m:") and c in F.bodies and \
+                    re.search(r"^u(32|64|size)$", F.ty(F.bodies[c], F.bodies[c]["locals"][0])):
+                # a converter of the fraction text into nanoseconds (its reading of the digits is judged by R14.5's fold): 10^9 times the fraction the text denotes
+                return ev_holder[0].binop("*", ("lit", NS), ("sym", args[0][1][2:]))
             if last == "try_from" and "TryFrom" in c and len(args) == 1 and args[0][0] in ("lin", "sym", "lit"):
                 return ("v", "Ok", [args[0]])      # the representable case
             return None
@@ -141,6 +146,8 @@ def duration_literal_rule(F, rep):
         if narrow:
             rep.violation(rid, "literal:%s:width" % tname, "%s converts a component with parse::<%s>() (line %s): components beyond that type's range make a valid literal null or lose the component"
                           % (name, narrow[0][0], narrow[0][1]), "%s:%s" % (h["file"], narrow[0][1]))
+        from hireval import Evaluator as _Ev
+        ev_holder[0] = _Ev(F, ints=True)
         outs, ev = c15.fold(F, name, [("sym", "value")], hook)
         key = "literal:%s" % tname
         if outs is None:
@@ -323,9 +330,14 @@ def fraction_carrier_rule(F, rep):
         B = None
         for bi, bl in enumerate(b["blocks"]):
             for st in bl["s"]:
-                if not (st[0] == "A" and st[2][0] == "Agg" and isinstance(st[2][1], list) and st[2][1][0] == "adt" and st[2][1][1].endswith("::FeelTime") and len(st[2][2]) == 5):
+                if not (st[0] == "A" and st[2][0] == "Agg" and isinstance(st[2][1], list) and st[2][1][0] == "adt"):
                     continue
-                nanos = st[2][2][3]
+                if st[2][1][1].endswith("::FeelTime") and len(st[2][2]) == 5:
+                    nanos = st[2][2][3]
+                elif st[2][1][1].endswith("::FeelDaysAndTimeDuration") and len(st[2][2]) == 1 and n.endswith("::try_from"):
+                    nanos = st[2][2][0]           # the total of a duration literal, in nanoseconds
+                else:
+                    continue
                 if nanos[0] not in ("C", "M"):
                     continue
                 n_sites += 1
@@ -362,7 +374,7 @@ def fraction_carrier_rule(F, rep):
                             converters.add(p_)
                 key = "%s:%s" % (n.split("::")[-1], st[-1])
                 if floats:
-                    rep.violation(rid, "carrier:%s" % n.split("::")[-1], "%s builds the time's nanoseconds through %s: decimal fractions such as .0157 have no exact binary representation and come out one "
+                    rep.violation(rid, "carrier:%s" % n.split("::")[-1], "%s builds the nanoseconds of the value through %s: decimal fractions such as .0157 have no exact binary representation and come out one "
                                   "nanosecond short" % (n, sorted(set(floats))[0]), "%s:%s" % (b["file"], st[-1]))
                 else:
                     rep.ok(rid, key, "no binary floating point value in the data slice of the nanosecond component")
